@@ -149,6 +149,11 @@ def _check_paths(chk, R1, R2, fm, label, q, fi, paths, dest, rhs_of, need_store)
                 problems1.append('`%s` stores %s' % (e.text(), describe_value(v, rhs)))
                 store_nodes.add(e.node)
                 mine += 1
+            if not is_deepcopy_of(v, rhs):
+                shared = _module_owned_mutable(F, v)
+                if shared:
+                    problems2.append('`%s` stores an object owned by the module (%s): every destination it is stored into shares that one object, '
+                                     'and a later in-place update through any of them changes all' % (e.text(), shared))
         # mutating calls that smuggle the value into a container
         for e in p.events:
             if e.kind == 'call' and not e.d.get('inlined') and isinstance(freeze(e.func), tuple) and freeze(e.func)[0] == 'attr' \
@@ -181,6 +186,41 @@ def _check_paths(chk, R1, R2, fm, label, q, fi, paths, dest, rhs_of, need_store)
     chk.require(not problems1, R1, cons, fi.where,
                 '; '.join(sorted(set(problems1))) or '%d store statement(s), each storing copy.deepcopy(rhs)' % len(store_nodes))
     chk.require(not problems2, R2, cons, fi.where, '; '.join(sorted(set(problems2))) or 'no other store of the value')
+
+
+def _module_owned_mutable(F, v) -> str:
+    """If the term is (an element of) a module-level list / dict / set display that holds mutable objects - or is such a display
+    itself - its name; '' otherwise."""
+    import ast
+
+    def mutable(n) -> bool:
+        return isinstance(n, (ast.List, ast.Dict, ast.Set, ast.ListComp, ast.DictComp, ast.SetComp)) or (
+            isinstance(n, ast.Call) and norm(n.func).rsplit('.', 1)[-1] in ('list', 'dict', 'set', 'defaultdict', 'OrderedDict', 'deque', 'bytearray'))
+
+    def walk(t, bare: bool):
+        if not isinstance(t, tuple) or not t:
+            return ''
+        if t[:2] == ('ref', 'modvar') and len(t) == 3:
+            mod, _, var = t[2].rpartition('.')
+            m = F.modules.get(mod)
+            vals = m.assigns.get(var, []) if m is not None else []
+            if len(vals) == 1 and vals[0] is not None:
+                n = vals[0]
+                if bare and mutable(n):
+                    return t[2]
+                if not bare and isinstance(n, (ast.Dict, ast.List, ast.Tuple, ast.Set)):
+                    elts = n.values if isinstance(n, ast.Dict) else n.elts
+                    if any(mutable(x) for x in elts):
+                        return 'an element of %s' % t[2]
+            return ''
+        if t[0] == 'sub':
+            return walk(t[1], False)
+        if t[0] == 'call' and isinstance(t[2], tuple) and t[2][:1] == ('attr',) and t[2][2] in ('get', 'pop', 'setdefault', '__getitem__'):
+            return walk(t[2][1], False)
+        if t[0] == 'phi':
+            return walk(t[3], bare)
+        return ''
+    return walk(freeze(v), True)
 
 
 def _r3(chk: Check) -> None:
